@@ -348,7 +348,7 @@ def check(rep, tier, seed):
     rep.sample({"behaviour": [{k: e[k] for k in ("act", "form", "rep", "t", "dv")} for e in cases[0]["hist"]],
                 "P_of_last_state": cases[0]["hist"][-1]["P"]})
     res = pmap(run_case, [(c, i) for i, c in enumerate(cases)], procs=16, chunk=16)
-    for c, probs in zip(cases, res):
+    for ci, (c, probs) in enumerate(zip(cases, res)):
         rep.add_traces(1)
         rep.add_eval(len(c["hist"]) - 1)
         rep.add_distinct([[e["act"], e["form"], e["rep"], e["t"], e["dv"]] for e in c["hist"]])
@@ -357,7 +357,7 @@ def check(rep, tier, seed):
             if key in seen:
                 continue
             seen.add(key)
-            rep.mismatch(key, msg, {"case": c, "message": msg})
+            rep.mismatch(key, msg, {"case": c, "idx": ci, "message": msg})
     rule = ("behaviours of AberrationForms.tla (every initial term and value, canonical / alias spelling, every order of "
             "Standardize, ToCart, AddDelta, ToPolar, Merge within the length bound) exported with the exact lattice values "
             "of the surface and its gradient; each replayed through the library's conversion functions with the surface, "
